@@ -3,4 +3,4 @@ import json, sys, glob
 for f in sorted(glob.glob(sys.argv[1])):
     d = json.load(open(f))
     c = d['case']
-    print(json.dumps(c.get('input', c), ensure_ascii=False)[:300], '=>', d['message'][:int(sys.argv[2]) if len(sys.argv) > 2 else 260])
+    print(json.dumps(c.get('input', c.get('query', c)), ensure_ascii=False)[:300], '=>', d['message'][:int(sys.argv[2]) if len(sys.argv) > 2 else 260])
